@@ -28,6 +28,12 @@ type FlowCfg struct {
 	Markup     bool // some line texts carry markup
 	Random     bool // use the random built-ins (programs are then only compared with themselves)
 	BadJumps   int  // percent of jumps that name a node that does not exist (a fault)
+	// StartNotFirst: one program in four has a node titled "Start" that is NOT the first node (the dialogue
+	// begins with the first node of the first reader, whatever it is called).
+	StartNotFirst bool
+	// DupTitles: one program in five ends with an extra node whose title repeats an earlier one (other body,
+	// other tracking header). The first definition is the node of that name; the extra one is never entered.
+	DupTitles bool
 }
 
 func DefaultFlow() FlowCfg {
@@ -68,6 +74,10 @@ func Flow(r *core.Rand, cfg FlowCfg) *hast.Program {
 			t = "N" + strconv.Itoa(i+1)
 		}
 		g.titles = append(g.titles, t)
+	}
+	if cfg.StartNotFirst && !cfg.Random && n >= 2 && r.Chance(1, 4) {
+		k := r.Range(1, n-1)
+		g.titles[0], g.titles[k] = g.titles[k], g.titles[0]
 	}
 	g.sc.Visited = append(append([]string{}, g.titles...), "Nowhere")
 	g.budget = r.Range(cfg.MaxStmts/3+1, cfg.MaxStmts)
@@ -161,6 +171,16 @@ func Flow(r *core.Rand, cfg FlowCfg) *hast.Program {
 		g.budget = b - per + g.budget
 		p.Nodes = append(p.Nodes, node)
 	}
+	dup := (*hast.Node)(nil)
+	if cfg.DupTitles && r.Chance(1, 5) {
+		orig := p.Nodes[r.Intn(n)]
+		dup = &hast.Node{Title: orig.Title, Body: []*hast.Stmt{{K: hast.SLine, Parts: []hast.Part{hast.Lit("second definition of " + orig.Title + ": never entered")}, ID: g.id()}}}
+		if orig.Tracking() == "never" {
+			dup.Headers = append(dup.Headers, [2]string{"tracking", "always"})
+		} else {
+			dup.Headers = append(dup.Headers, [2]string{"tracking", "never"})
+		}
+	}
 	// reader assignment: contiguous, every reader gets at least one node, node 0 in reader 0
 	cuts := map[int]bool{}
 	for len(cuts) < readers-1 {
@@ -172,6 +192,15 @@ func Flow(r *core.Rand, cfg FlowCfg) *hast.Program {
 			rd++
 		}
 		node.Reader = rd
+	}
+	if dup != nil {
+		dup.Reader = rd
+		if r.Bool() && readers < 8 {
+			// in a reader of its own
+			dup.Reader = rd + 1
+			p.Readers++
+		}
+		p.Nodes = append(p.Nodes, dup)
 	}
 	return p
 }
